@@ -936,7 +936,10 @@ class JinjaInterp:
                     descs.append("")
                     if i < len(segs) - 1:
                         a = args[i] if i < len(args) else BOTTOM
-                        vals.append(self.py.repr_of(a))
+                        rv = self.py.repr_of(a)
+                        if "REPR_OF_ESC" in rv.labels:  # double escaping introduced by the template itself
+                            rv = rv.with_labels((rv.labels - {"REPR_OF_ESC"}) | {"REPR_OF_ESC_T"})
+                        vals.append(rv)
                         descs.append(expr_text(n.args[i]) if i < len(n.args) else "")
                 return concat(vals, descs, f"{ti.name}:{n.lineno}")
             return typed("str", labels=fmt.labels | self.py._deep(join_all(args)))
